@@ -33,6 +33,7 @@ def run_shard(pid, tier, seed, shard, nshards, out):
     core.setup_repo_import()
     mod = load_prop(pid)
     ctx = core.Ctx(pid, tier, seed, shard, nshards)
+    core.set_process_time_zone(ctx)          # every check: shard k runs under the k-th process time zone (no property may depend on it)
     try:
         mod.run(ctx)
     except Exception as e:  # harness fault -> inconclusive, never a silent pass
@@ -48,6 +49,7 @@ def do_replay(pid, path):
     with open(path) as f:
         v = json.load(f)
     ctx = core.Ctx(pid, v.get("tier", "quick"), v.get("seed", 0), v.get("shard", 0), v.get("nshards", 1), replay=True)
+    core.set_process_time_zone(ctx)
     if hasattr(mod, "install"):
         mod.install(ctx)
     case = v["case"]
